@@ -86,6 +86,10 @@ struct Seen {
     m: [bool; 4],
     f: Vec<(Option<std::ops::Range<usize>>, Option<std::ops::Range<usize>>)>,
     t: Vec<String>,
+    /// `literal_period` variants: (is_match, find) under (both anchors), (no anchor), (anchor_begin)
+    lp: Vec<(bool, Option<std::ops::Range<usize>>)>,
+    /// the literal fast path was taken
+    lit: bool,
 }
 
 /// the ten distinct configurations compiled per pattern: (anchor_begin, anchor_end, shortest, literal_period)
@@ -107,32 +111,81 @@ const ALL_CONFIGS: [(bool, bool, bool, bool); 10] = [
 struct Compiled {
     key: (bool, String),
     pats: Result<Vec<Pattern>, &'static str>,
+    /// the intermediate stages, observed on every case: ` S=<syntax tree> R=<regex text, both anchors>,<no anchor>`
+    stages: String,
+}
+
+/// canonical text of a syntax tree, in the notation of the `a` cases (inverse of `parse_ast`)
+fn show_ast(ast: &Ast) -> String {
+    fn batom(a: &BracketAtom) -> String {
+        match a {
+            BracketAtom::Char(c) => format!("c{}", enc_str(&c.to_string())),
+            BracketAtom::CollatingSymbol(v) => format!("s{}", enc_str(v)),
+            BracketAtom::EquivalenceClass(v) => format!("e{}", enc_str(v)),
+            BracketAtom::CharClass(v) => format!("k{}", enc_str(v)),
+        }
+    }
+    if ast.atoms.is_empty() {
+        return "-".into();
+    }
+    let atoms: Vec<String> = ast
+        .atoms
+        .iter()
+        .map(|a| match a {
+            Atom::Char(c) => format!("c{}", enc_str(&c.to_string())),
+            Atom::AnyChar => "?".into(),
+            Atom::AnyString => "*".into(),
+            Atom::Bracket(b) => {
+                let items: Vec<String> = b
+                    .items
+                    .iter()
+                    .map(|it| match it {
+                        BracketItem::Atom(a) => format!("a{}", batom(a)),
+                        BracketItem::Range(r) => format!("r{}~{}", batom(r.start()), batom(r.end())),
+                    })
+                    .collect();
+                format!("b{}({})", if b.complement { 1 } else { 0 }, items.join(";"))
+            }
+        })
+        .collect();
+    atoms.join(",")
+}
+
+/// parser output and translator output of the real code (`Ast::new` is the caller's, `Ast::to_regex` is called
+/// here also for literal patterns, which `from_ast_and_config` never translates)
+fn show_stages(ast: &Ast) -> String {
+    let re = |c: Config| match ast.to_regex(&c) {
+        Ok(r) => enc_str(&r),
+        Err(e) => format!("!{}", err_class(&e)),
+    };
+    format!(" S={} R={},{}", show_ast(ast), re(cfg(true, true, false, false)), re(Config::default()))
 }
 
 /// Compiles under every configuration.  The all-default configuration goes through the short entry point
 /// (`Pattern::parse` / `Pattern::from_ast`), the others through the `*_with_config` one.
-fn compile_with(key: (bool, String), build: impl Fn(Option<Config>) -> Result<Pattern, Error>) -> Compiled {
+fn compile_with(key: (bool, String), ast: &Ast, build: impl Fn(Option<Config>) -> Result<Pattern, Error>) -> Compiled {
+    let stages = show_stages(ast);
     let mut v = vec![];
     for (ab, ae, sh, lp) in ALL_CONFIGS {
         let c = if (ab, ae, sh, lp) == (false, false, false, false) { None } else { Some(cfg(ab, ae, sh, lp)) };
         match build(c) {
             Ok(pat) => v.push(pat),
-            Err(e) => return Compiled { key, pats: Err(err_class(&e)) },
+            Err(e) => return Compiled { key, pats: Err(err_class(&e)), stages },
         }
     }
-    Compiled { key, pats: Ok(v) }
+    Compiled { key, pats: Ok(v), stages }
 }
 
 fn compile(esc: bool, p: &str) -> Compiled {
     let pcs = pchars(esc, p);
-    compile_with((esc, p.to_string()), |c| match c {
+    compile_with((esc, p.to_string()), &Ast::new(pcs.iter().copied()), |c| match c {
         None => Pattern::parse(pcs.iter().copied()),
         Some(c) => Pattern::parse_with_config(pcs.iter().copied(), c),
     })
 }
 
 fn compile_ast(key: &str, ast: &Ast) -> Compiled {
-    compile_with((false, format!("ast:{key}")), |c| match c {
+    compile_with((false, format!("ast:{key}")), ast, |c| match c {
         None => Pattern::from_ast(ast),
         Some(c) => Pattern::from_ast_and_config(ast, c),
     })
@@ -160,7 +213,7 @@ fn literal_api_check(comp: &Compiled, ast: &Ast, want: Option<Option<String>>) -
 
 fn observe(comp: &Compiled, text: &str) -> (String, Option<Seen>) {
     let pats = match &comp.pats {
-        Err(e) => return (format!("E={e}"), None),
+        Err(e) => return (format!("E={e}{}", comp.stages), None),
         Ok(v) => v,
     };
     let get = |ab: bool, ae: bool, sh: bool, lp: bool| -> &Pattern {
@@ -183,9 +236,12 @@ fn observe(comp: &Compiled, text: &str) -> (String, Option<Seen>) {
         f.push((a, b));
     }
     let mut ps = vec![];
+    let mut lp = vec![];
     for (ab, ae) in [(true, true), (false, false), (true, false)] {
         let pat = get(ab, ae, false, true);
-        ps.push(format!("{}{}", if pat.is_match(text) { 1 } else { 0 }, show_range(pat.find(text))));
+        let (m, f) = (pat.is_match(text), pat.find(text));
+        ps.push(format!("{}{}", if m { 1 } else { 0 }, show_range(f.clone())));
+        lp.push((m, f));
     }
     let mut t = vec![];
     for (ab, ae, sh) in TRIMS {
@@ -195,14 +251,15 @@ fn observe(comp: &Compiled, text: &str) -> (String, Option<Seen>) {
     }
     let ts: Vec<String> = t.iter().map(|s| enc_str(s)).collect();
     let obs = format!(
-        "E=ok L={} M={} F={} P={} T={}",
+        "E=ok L={} M={} F={} P={} T={}{}",
         if lit { 1 } else { 0 },
         ms,
         fs.join(","),
         ps.join(","),
-        ts.join(",")
+        ts.join(","),
+        comp.stages
     );
-    (obs, Some(Seen { ok: true, m, f, t }))
+    (obs, Some(Seen { ok: true, m, f, t, lp, lit }))
 }
 
 // ------------------------------------------------------------------------------------------
@@ -488,10 +545,26 @@ fn oracle_toks(toks: &[Tok], text: &str, seen: &Seen) -> String {
             return format!("FAIL:trim {i}");
         }
     }
-    if has_seq {
-        return "ok".into();
+    // `literal_period` (XCU 2.13.3): a leading period of the text is matched only by a period written first in the
+    // pattern.  Both anchors (glob's configuration): the whole text must match and obey the rule.  Without
+    // `anchor_end` / any anchor the real code searches from index 1 instead (on the regex path only).
+    let lead_dot_rejected = s.first() == Some(&'.') && !matches!(toks.first(), Some(Tok::Lit('.')));
+    if seen.lp[0].0 != (whole && !lead_dot_rejected) {
+        return format!("FAIL:literal_period is_match={} glob={} rejected={}", seen.lp[0].0, whole, lead_dot_rejected);
     }
-    // any reported range is a match, the find start is leftmost and the rfind start rightmost
+    let a0 = if lead_dot_rejected && !seen.lit { 1 } else { 0 };
+    let lp_any = (a0..=n).any(|i| (i..=n).any(|j| gm(toks, &s[i..j])));
+    let lp_prefix = a0 == 0 && !prefixes.is_empty();
+    if seen.lp[1].0 != lp_any || seen.lp[2].0 != lp_prefix {
+        return "FAIL:literal_period unanchored/half-anchored is_match".into();
+    }
+    for (m, f) in &seen.lp {
+        if *m != f.is_some() {
+            return "FAIL:literal_period is_match vs find".into();
+        }
+    }
+    // any reported range is a match, the find start is leftmost and the rfind start rightmost — for every pattern,
+    // also with multi-character elements (`find_leftmost` / `rfind_rightmost`)
     for (i, (a, b)) in seen.f.iter().enumerate() {
         let (ab, ae, _) = FIND_CONFIGS[i];
         let starts: Vec<usize> = (0..=n)
